@@ -17,21 +17,21 @@ type MTPlan struct {
 	Tight      bool    `json:"tight,omitempty"` // default (short) max delays: expiry may happen, limit clause off
 	Submitters int     `json:"submitters"`
 	Subs       []MTSub `json:"subs"`
-	QCap       int     `json:"qcap,omitempty"` // capacity of the clearance queues (0: as shipped, GOMAXPROCS*100)
+	QCap       int     `json:"qcap,omitempty"`        // capacity of the clearance queues (0: as shipped, GOMAXPROCS*100)
 	EarlyStop  bool    `json:"early_stop,omitempty"`  // Shutdown is called while microtasks are still running
 	StopSubmit bool    `json:"stop_submit,omitempty"` // the module's stop routine runs a microtask itself
 }
 
 // MTSub is one microtask submission.
 type MTSub struct {
-	By    int    `json:"by"`
-	Kind  string `json:"kind"` // start|run|sig + high|med|low
-	Dur   int    `json:"dur"`
-	Gap   int    `json:"gap,omitempty"`
-	Panic bool   `json:"panic,omitempty"`
-	Err   bool   `json:"err,omitempty"`
-	ErrKind int  `json:"err_kind,omitempty"` // 0 a plain error, 1 context.Canceled, 2 an error wrapping context.Canceled
-	Done  int    `json:"done,omitempty"`
+	By      int    `json:"by"`
+	Kind    string `json:"kind"` // start|run|sig + high|med|low
+	Dur     int    `json:"dur"`
+	Gap     int    `json:"gap,omitempty"`
+	Panic   bool   `json:"panic,omitempty"`
+	Err     bool   `json:"err,omitempty"`
+	ErrKind int    `json:"err_kind,omitempty"` // 0 a plain error, 1 context.Canceled, 2 an error wrapping context.Canceled
+	Done    int    `json:"done,omitempty"`
 }
 
 var mtKinds = []string{"starthigh", "startmed", "startlow", "runhigh", "runmed", "runlow", "sighigh", "sigmed", "siglow"}
@@ -84,29 +84,29 @@ type mtState struct {
 	rc *simkit.RunCtx
 	m  *modules.Module
 	// gauges
-	runHigh, runML, maxML int
-	execs   []int // executions per submission
-	ended   []int
-	rets    []error
-	retSet  []bool
-	negSeen string
-	probeDelay time.Duration
-	probeRan   bool
-	subT        []time.Duration // when each submission was made
-	startT      []time.Duration // when its function began
-	stopRan     int             // executions of the microtask the stop routine runs
-	stopRet     error
-	stopRetSet  bool
-	lastEndT    time.Duration // when the last microtask function returned
-	shutdownBegun bool
-	anyExpired    bool // some microtask's maximum delay has run out in this run
-	earlyStopDone bool
-	earlyStopHeld time.Duration // time between the return of the last microtask function and the return of Shutdown
+	runHigh, runML, maxML  int
+	execs                  []int // executions per submission
+	ended                  []int
+	rets                   []error
+	retSet                 []bool
+	negSeen                string
+	probeDelay             time.Duration
+	probeRan               bool
+	subT                   []time.Duration // when each submission was made
+	startT                 []time.Duration // when its function began
+	stopRan                int             // executions of the microtask the stop routine runs
+	stopRet                error
+	stopRetSet             bool
+	lastEndT               time.Duration // when the last microtask function returned
+	shutdownBegun          bool
+	anyExpired             bool // some microtask's maximum delay has run out in this run
+	earlyStopDone          bool
+	earlyStopHeld          time.Duration // time between the return of the last microtask function and the return of Shutdown
 	earlyStarted, earlyRan bool
 	earlyDelay             time.Duration
-	offDelay   time.Duration
-	finalGlobal int32
-	finalMod    int32
+	offDelay               time.Duration
+	finalGlobal            int32
+	finalMod               int32
 }
 
 // mtError is the error a microtask function returns: an ordinary one, the context's cancellation error (what a
